@@ -81,12 +81,18 @@ YAML_HOSTILE = ["null", "~", "Null", "NULL", "true", "True", "TRUE", "false", "y
                 "0.", "-0", "+.inf", "1e", "e1", "0e0", "-.5", "+", "--- a", "a: ", "é: ü", "key", "some key"]
 
 
+# otherwise plain ASCII strings with exactly one character that needs care (fast paths that test only part of the set)
+TRICKY = ["a\\b", "\\", "tail\\", "\\n", "\\u0041", "re\\d+", "q\"uote", "\"", "it's", "a/b", "</script>", "a\tb", "a\nb", "a\rb", "a\x7fb",
+          "a\x1fb", "a\x00b", "caf\u00e9", "\u043a\u043b\u044e\u0447", "\u540d\u524d", "\uff11\uff12", "a.b", "a b", "a-b", "a_b", "-", "_", "1a", "a\u0301",
+          "\u00e9", "a\u2028b", "a\u0085b", "\U0001f600", "k\U0001f600", "x\ufeff", "a$b", "a%b", "{a}", "[a]", "a,b", "a=b", "a:b", "a#b", "a&b", "a*b", "a\u00a0b"]
+
+
 def keys():
-    return st.one_of(st.sampled_from(["a", "b", "c", "k1", "x_y", "key"]), strings(6), st.sampled_from(YAML_HOSTILE))
+    return st.one_of(st.sampled_from(["a", "b", "c", "k1", "x_y", "key"]), strings(6), st.sampled_from(YAML_HOSTILE), st.sampled_from(TRICKY))
 
 
 def scalars(string_strategy=None):
-    s = string_strategy if string_strategy is not None else st.one_of(strings(), st.sampled_from(YAML_HOSTILE))
+    s = string_strategy if string_strategy is not None else st.one_of(strings(), st.sampled_from(YAML_HOSTILE), st.sampled_from(TRICKY))
     return st.one_of(st.none(), st.booleans(), finite_doubles().map(num), s)
 
 
